@@ -42,6 +42,8 @@ SPEC = {
         "one batch row per model case (batch samples do not interact: C11); Conv2D's like_synaptic (F.unfold) is taken from the real "
         "connection and fed to the model as the N x L synapse input (C05 proves the window extraction)",
         "connection inputs are spike trains (0/1 float64), no injected currents through the connection",
+        "re-assigning the supported maximum delay of a running connection: the property leaves open whether that resets the history or "
+        "carries it over; either reading is accepted if the whole run follows it (the driver's model follows the reset, as the code does)",
         "delay tensors in [0, max]; a separate boundary stream puts single entries beyond max (expected: C04's out-of-range rule)",
         "CPU, float64",
     ],
@@ -135,6 +137,8 @@ def run_real(c):
     """→ dict(per-step observables of the delayed connection and of the twin, stored parameters, dims)"""
     torch.set_default_dtype(torch.float64)
     conn, twin = build_conn(c), build_conn(c, twin=True)
+    # second undelayed twin, wiped whenever the supported maximum delay is re-assigned mid-run (reading A of such a change)
+    twinA = build_conn(c, twin=True) if any(st.get("setMax") is not None for st in c["steps"]) else None
     ck, d1, d2, d3, E, R = dims(c, conn)
     B = c["batch"]
     P = {"W": conn.weight.detach().reshape(conn.weight.shape[0], -1) if c["conn"] != "direct" else conn.weight.detach().reshape(1, -1),
@@ -142,13 +146,24 @@ def run_real(c):
                                                 else conn.delay.detach().reshape(1, -1)),
          "b": None if conn.bias is None else conn.bias.detach().reshape(-1)}
     steps = []
+    recordsz0 = conn.synapse.spike_.recordsz
     with torch.no_grad():
         for st in c["steps"]:
             if st.get("clear"):
                 conn.clear()
                 twin.clear()
+                if twinA is not None:
+                    twinA.clear()
             x = t64(st["x"]).reshape(B, *conn.inshape)
             o = {"clear": bool(st.get("clear"))}
+            if st.get("setMax") is not None:
+                # the SUPPORTED MAXIMUM delay of the running connection is re-assigned through the synapse's public setter
+                # (to make room for longer learned delays, or to shrink the record); nothing else is touched by the harness
+                o["recordsz_before"] = conn.synapse.spike_.recordsz
+                conn.synapse.delay = st["setMax"]
+                twinA.clear()
+                o["setMax"] = float(conn.delayedby)
+                o["recordsz"] = conn.synapse.spike_.recordsz
             if st.get("setD") is not None:
                 # the learned delays are RE-ASSIGNED through the public setter mid-run (what every delay-learning update does);
                 # what the connection then reports is what the expectation and the driver use from this step on
@@ -163,6 +178,10 @@ def run_real(c):
             twin(x)
             o["tcur"] = twin.synapse.current.reshape(B, E).tolist()
             o["tspk"] = twin.synapse.spike.reshape(B, E).tolist()
+            if twinA is not None:
+                twinA(x)
+                o["tcurA"] = twinA.synapse.current.reshape(B, E).tolist()
+                o["tspkA"] = twinA.synapse.spike.reshape(B, E).tolist()
             for name, get in (("syncur", lambda: conn.syncurrent), ("synspk", lambda: conn.synspike)):
                 try:
                     v = get()
@@ -175,15 +194,19 @@ def run_real(c):
                 except Exception as e:
                     o[name] = "err " + (type(e).__name__ if type(e).__name__ in ERRS else "Other")
             steps.append(o)
-    return {"steps": steps, "P": P, "dims": (ck, d1, d2, d3, E, R), "recordsz": conn.synapse.spike_.recordsz,
+    return {"steps": steps, "P": P, "dims": (ck, d1, d2, d3, E, R), "recordsz": recordsz0,
             "delayedby": conn.delayedby}
 
 
 # ---------------------------------------------------------------------------------------------
 # expectation from the undelayed twin, shifted by the harness
 
-def shifted_expectation(c, real):
-    """per step: (out [B][O], syncur view, synspk view) rebuilt from the twin's history; None where a delay is off the grid"""
+def shifted_expectation(c, real, reading="A"):
+    """per step: (out [B][O], syncur view, synspk view) rebuilt from the twin's history; None where a delay is off the grid.
+    `reading` only matters when the supported maximum delay is re-assigned mid-run; the property leaves two readings of that:
+    A = the re-assignment resets the synapse (what happened before is the resting state; twin wiped at that moment),
+    B = the recorded history is carried over faithfully (as far back as the record held before the change, resting state
+        beyond that; twin never wiped)."""
     ck, d1, d2, d3, E, R = real["dims"]
     B, dt = c["batch"], c["dt"]
     W, D, bias = real["P"]["W"], real["P"]["D"], real["P"]["b"]
@@ -194,28 +217,41 @@ def shifted_expectation(c, real):
         Dm = D
     def grid(Dm):
         Km = torch.round(Dm / dt)
-        ok = bool(torch.all((Km * dt - Dm).abs() <= max(c["tol"], 1e-12)) and torch.all(Dm <= c["maxdelay"]) and torch.all(Dm >= 0))
+        ok = bool(torch.all((Km * dt - Dm).abs() <= max(c["tol"], 1e-12)) and torch.all(Dm <= curmax[0]) and torch.all(Dm >= 0))
         return Km.long(), ok
+    curmax = [c.get("maxdelay0", c["maxdelay"])]
     Km, ongrid = grid(Dm)
+    last = Dm
     for o in real["steps"]:
+        if o.get("setMax") is not None:
+            curmax[0] = o["setMax"]
+            ongrid = ongrid and curmax[0] > 0
         if o.get("setD") is not None and delayed:
-            ongrid = ongrid and grid(t64(o["setD"]))[1]
+            last = t64(o["setD"])
+        if o.get("setMax") is not None or o.get("setD") is not None:
+            ongrid = ongrid and grid(last)[1]
     if not ongrid:
         return None
+    curmax[0] = c.get("maxdelay0", c["maxdelay"])
     exp = []
     hist_c, hist_s = [], []
+    start = 0                       # first step whose observations are not the resting state
+    kc, ks = ("tcurA", "tspkA") if reading == "A" and "tcurA" in real["steps"][0] else ("tcur", "tspk")
     for o in real["steps"]:
+        if o.get("setMax") is not None:
+            start = len(hist_c) if reading == "A" else max(start, len(hist_c) - o["recordsz_before"])
+            curmax[0] = o["setMax"]
         if o.get("setD") is not None and delayed:
             Km = grid(t64(o["setD"]))[0]
         if o["clear"]:
-            hist_c, hist_s = [], []
-        hist_c.append(t64(o["tcur"]))
-        hist_s.append(torch.tensor(o["tspk"]))
+            start = len(hist_c)
+        hist_c.append(t64(o[kc]))
+        hist_s.append(torch.tensor(o[ks]))
         t = len(hist_c) - 1
 
         def past(e, k, spikes=False):
             h = hist_s if spikes else hist_c
-            if t - k < 0:
+            if t - k < start:
                 return torch.zeros(B, dtype=torch.bool if spikes else torch.float64)
             return h[t - k][:, e]
 
@@ -276,16 +312,26 @@ def mat(m):
 def row_lines(c, real, b):
     ck, d1, d2, d3, E, R = real["dims"]
     P = real["P"]
-    lines = [" ".join(["begin", c["syn"], hx(c["dt"]), hx(c["maxdelay"] if c["hasDelay"] else 0.0), hx(c["Q"]), hx(c["tau"]), hx(c["tauR"]),
-                       c["mode"], hx(c["tol"]), optf(c["curOver"]), optb(c["spkOver"]), "T" if c["inplace"] else "F",
-                       "T" if c["hasDelay"] else "F", ck, str(d1), str(d2), str(d3)]),
-             "W " + mat(P["W"].tolist()),
-             "D " + ("N" if P["D"] is None else mat(P["D"].tolist())),
-             "b " + ("N" if P["b"] is None else vec(P["b"].tolist()))]
+
+    def header(maxdelay, D):
+        return [" ".join(["begin", c["syn"], hx(c["dt"]), hx(maxdelay if c["hasDelay"] else 0.0), hx(c["Q"]), hx(c["tau"]), hx(c["tauR"]),
+                          c["mode"], hx(c["tol"]), optf(c["curOver"]), optb(c["spkOver"]), "T" if c["inplace"] else "F",
+                          "T" if c["hasDelay"] else "F", ck, str(d1), str(d2), str(d3)]),
+                "W " + mat(P["W"].tolist()),
+                "D " + ("N" if D is None else mat(D)),
+                "b " + ("N" if P["b"] is None else vec(P["b"].tolist()))]
+    D = None if P["D"] is None else P["D"].tolist()
+    lines = header(c.get("maxdelay0", c["maxdelay"]), D)
     for o in real["steps"]:
         if o["clear"]:
             lines.append("clear")
         if o.get("setD") is not None:
+            D = o["setD"]
+        if o.get("setMax") is not None:
+            # reading A of a re-assigned maximum (what the code documents: the setter wipes the synapse): from here on the
+            # connection is a freshly built one with the new maximum and the delays in force
+            lines += header(o["setMax"], D)
+        elif o.get("setD") is not None:
             lines.append("D " + mat(o["setD"]))
         lines.append("step " + vec(o["syn_in"][b]))
         lines.append("syncur")
@@ -364,7 +410,12 @@ def row_diff(c, real, r, b, tol):
     for t, o in enumerate(real["steps"]):
         if o["clear"]:
             i += 1
-        if o.get("setD") is not None:
+        if o.get("setMax") is not None:
+            msz = int(r[i].split()[1])
+            i += 4
+            if msz != o["recordsz"]:
+                return ("model", t, "recordsz", (b,), msz, o["recordsz"])
+        elif o.get("setD") is not None:
             i += 1
         for name, boolean in (("out", False), ("syncur", False), ("synspk", True)):
             m, s = split(r[i])
@@ -392,20 +443,43 @@ def judge(c, real, exp, resps):
     if bool(real["delayedby"]) and msz != real["recordsz"]:
         out.append(("model", 0, "recordsz", (), msz, real["recordsz"]))
     # relational: real delayed connection vs shifted twin
-    if exp is not None:
-        for t, (o, e) in enumerate(zip(real["steps"], exp)):
+    has_max = any(o.get("setMax") is not None for o in real["steps"])
+
+    def twin_diff(e, label):
+        for t, (o, ee) in enumerate(zip(real["steps"], e)):
             for name in ("out", "syncur", "synspk"):
-                d = first_diff(e[name], o[name], tol)
+                d = first_diff(ee[name], o[name], tol)
                 if d:
-                    out.append(("spec", t, name + " (vs shifted undelayed twin)", d[0], d[1], d[2]))
-                    break
-            else:
-                continue
-            break
+                    return ("spec", t, name + label, d[0], d[1], d[2])
+        return None
+    if exp is not None:
+        if not has_max:
+            d = twin_diff(exp, " (vs shifted undelayed twin)")
+            if d:
+                out.append(d)
+        else:
+            # the supported maximum was re-assigned mid-run: the run must agree, from the first step to the last, with ONE of
+            # the two readings (reset at the change / history carried over faithfully); reported at the step where the
+            # second of them has failed too
+            dA = twin_diff(exp, " (vs shifted undelayed twin; neither with the history reset at the re-assigned maximum [shown] nor carried over)")
+            real["reading"] = "reset"
+            if dA:
+                dB = twin_diff(shifted_expectation(c, real, "B"),
+                               " (vs shifted undelayed twin; neither with the history carried over the re-assigned maximum [shown] nor reset)")
+                if dB is None:
+                    real["reading"] = "carried over"
+                else:
+                    real["reading"] = "neither"
+                    out.append(dA if dA[1] >= dB[1] else dB)
     # driver: S then M
     for b in range(B):
         d = row_diff(c, real, resps[b], b, tol)
         if d:
+            if has_max and exp is not None and d[0] == "spec":
+                # the driver's segments follow the reset reading only; whether a run with a re-assigned maximum violates the
+                # property is decided by the two-reading twin oracle above (a faithful carry-over is not a violation, only a
+                # change of what the code does: tie)
+                d = ("model",) + tuple(d[1:])
             out.append(d)
     out.sort(key=lambda d: (d[0] != "spec", d[1]))
     return out
@@ -542,6 +616,69 @@ def reconf_cases(rng, T, reps=1):
     return cases
 
 
+def tolerance_cases(rng, reps=1):
+    """step times that are NOT exactly representable, long maximum delays (6..12 steps: k*dt computed in floating point is then
+    not reproduced by dt*k, and the error survives the record's `+1` offset), a positive interpolation tolerance, and delays that
+    lie WITHIN that tolerance of a grid point k*dt — written as the float product, rounded through float32 (what a float32
+    delay parameter stores), or pushed off the grid point by a fraction of the tolerance in either direction.  Every such delay
+    is an exact k-step shift (the tolerance is the configured meaning of "on the grid"); both interpolation modes per pair."""
+    cases = []
+    for _ in range(reps):
+        for conn in CONNS:
+            for syn in SYN:
+                for mode in "PN":
+                    dt = rng.choice([1.3, 1.3, 0.7, 0.1, 1.1, 0.3])
+                    K = rng.randint(6, 12)
+                    tol = rng.choice([1e-5, 1e-3, dt / 8])
+                    c = make_case(rng, conn, syn, dt, K, "heterogeneous", K + rng.choice([3, 5]), tol=tol, clear=rng.choice([None, None, 4]))
+                    c["mode"] = mode
+                    how = rng.choice(["product", "float32", "above", "below", "either"])
+                    D = []
+                    for j in range(len(c["D"])):
+                        k = rng.randint(0, K) if j != 1 else K      # the longest supported delay is always present
+                        if how == "product":
+                            d = float(k * dt)
+                        elif how == "float32":
+                            d = float(torch.tensor(k * dt, dtype=torch.float32))
+                        else:
+                            sgn = {"above": 1.0, "below": -1.0, "either": rng.choice([1.0, -1.0])}[how]
+                            d = float(k * dt) + sgn * rng.choice([0.1, 0.5, 0.9]) * tol
+                        D.append(min(max(d, 0.0), c["maxdelay"]))
+                    c["D"] = D
+                    c["delaykind"] = "heterogeneous+within-tolerance(" + how + ")"
+                    cases.append(c)
+    return cases
+
+
+def maxdelay_cases(rng, T, reps=1):
+    """the supported MAXIMUM delay of a connection that is already running is re-assigned (`connection.synapse.delay = ...`: grown
+    to make room for longer learned delays, shrunk, or re-assigned to a value with the same record size) once or twice, at steps
+    where the record's write pointer is anywhere; new learned delays within the new maximum are (mostly) assigned at the same
+    step, and the run continues for more than a record length.  Oracle: two undelayed twins (see `shifted_expectation`)."""
+    cases = []
+    for _ in range(reps):
+        for conn in CONNS:
+            for syn in SYN:
+                dt = rng.choice([1.0, 0.5, 2.0, 1.0, 0.25])
+                K0 = rng.randint(1, 4)
+                c = make_case(rng, conn, syn, dt, K0, rng.choice(["heterogeneous", "heterogeneous", "homogeneous"]), T,
+                              clear=rng.choice([None, None, None, 1]))
+                c["maxdelay0"] = c["maxdelay"]
+                nW = len(c["D"])
+                K, cur = K0, list(c["D"])
+                for tc in sorted(rng.sample(range(2, T - 3), rng.choice([1, 1, 2]))):
+                    K1 = rng.choice([k for k in range(1, 7) if k != K] + [K + 2, K + 3])
+                    c["steps"][tc]["setMax"] = float(K1 * dt)
+                    if K1 < K and any(d > K1 * dt for d in cur) or rng.random() < 0.75:
+                        cur = [float(rng.randint(0, K1) * dt) for _ in range(nW)]
+                        cur[rng.randrange(nW)] = float(K1 * dt)      # one synapse uses the whole new range
+                        c["steps"][tc]["setD"] = list(cur)
+                    K = K1
+                c["delaykind"] += "+max-reassigned"
+                cases.append(c)
+    return cases
+
+
 def gen_cases(rng, thorough):
     cases = []
     T = 8 if not thorough else 14
@@ -572,6 +709,10 @@ def gen_cases(rng, thorough):
                                        T, reassign=rng.choice([2, 3, 4]), clear=rng.choice([None, None, 6])))
     # reconfiguration by assignment after construction
     cases += reconf_cases(rng, T, reps=1 if not thorough else 3)
+    # non-representable step times, long delays within a positive tolerance of the grid
+    cases += tolerance_cases(rng, reps=1 if not thorough else 3)
+    # the supported maximum delay is re-assigned while the connection is running
+    cases += maxdelay_cases(rng, 16 if not thorough else 24, reps=2 if not thorough else 6)
     # random extras
     for _ in range(40 if not thorough else 400):
         kind = rng.choice(["heterogeneous", "heterogeneous", "homogeneous", "zero", "none", "offgrid", "subgrid", "beyond"])
@@ -599,6 +740,11 @@ def describe(c, d):
     if c.get("ctor_dt", c["dt"]) != c["dt"] or c["ctor_maxdelay"] != c["maxdelay"]:
         rc = (f"; constructed with dt={c.get('ctor_dt', c['dt'])}, max delay={c['ctor_maxdelay']}, then assigned "
               f"{c.get('dt_via', 'connection')}.dt / synapse.delay and cleared")
+    re = [(i, st["setMax"]) for i, st in enumerate(c["steps"]) if st.get("setMax") is not None]
+    if re:
+        rc += "; synapse.delay (supported maximum) re-assigned while running at " + ", ".join(f"step {i} to {v}" for i, v in re)
+    if c["tol"]:
+        rc += f"; interp_tol={c['tol']}, mode {c['mode']}"
     return (f"{c['conn']} x {SYN[c['syn']].__name__} (dt={c['dt']}, max delay={c['maxdelay']}, delays {c['delaykind']}{rc}) step {t}: "
             f"{what} at {list(where)} is {got}, {side} gives {want}")
 
@@ -684,6 +830,8 @@ def explore(ctx) -> Exploration:
         ex.count("reconfigured after construction", c.get("reconf", "no"))
         ex.count("twin-shift applicable", str(exp is not None))
         ex.count("clear mid-run", str(any(s.get("clear") for s in c["steps"])))
+        ex.count("interpolation tolerance", "0" if not c["tol"] else ("dt/8" if c["tol"] == c["dt"] / 8 else str(c["tol"])))
+        ex.count("max delay re-assigned while running", str(sum(1 for s in c["steps"] if s.get("setMax") is not None)))
         nout = len(real["steps"][0]["out"][0]) if not isinstance(real["steps"][0]["out"], str) else 1
         ex.evaluations += len(c["steps"]) * c["batch"] * (nout + 2 * E * (R if real["delayedby"] else 1))
         if any(any(s["x"]) for s in c["steps"]):
@@ -696,6 +844,8 @@ def explore(ctx) -> Exploration:
                         for p, q in zip(ra, ea):
                             floaty["max_rel_dev_vs_twin"] = max(floaty["max_rel_dev_vs_twin"], abs(p - q) / max(1.0, abs(p), abs(q)))
         ds = judge(c, real, exp, [resp[a:b] for a, b in spans])
+        if real.get("reading"):
+            ex.count("re-assigned maximum: history is", real["reading"])
         if ds:
             failing.append((c, ds[0]))
     seen = set()
@@ -715,7 +865,12 @@ def explore(ctx) -> Exploration:
                "mid-run, max delay set by constructor or by the synapse's setter, tolerance 0 / dt/8, overbound default / None; the same pairs "
                "with dt = 1.3 (partial (float), 1e-6); reconfiguration stream: every pair built with another dt and/or max delay and then ASSIGNED "
                "(Connection.dt / Synapse.dt / Synapse.delay; size-preserving 1->7/8, 1->3/4, 1->1.3, 2.5dt<->3dt and size-changing), cleared, "
-               "run against a twin built directly with the final values; random extras with dt in {1/4, 1/2, 1, 2}; every case is stepped on the delayed connection "
+               "run against a twin built directly with the final values; tolerance stream: every pair x both interpolation modes with a non-representable dt "
+               "in {1.3, 0.7, 0.1, 1.1, 0.3}, max delay 6..12 steps, interp_tol in {1e-5, 1e-3, dt/8} and delays within the tolerance of k*dt "
+               "(float product, float32-rounded, +/- a fraction of the tolerance) = exact k-step shifts; max-delay stream: every pair, the "
+               "supported maximum re-assigned through Synapse.delay once or twice WHILE RUNNING (grow / shrink, any pointer position, new "
+               "delays up to the new maximum), judged against two undelayed twins (history reset at the change / carried over faithfully: "
+               "the run must agree with one of them throughout); random extras with dt in {1/4, 1/2, 1, 2}; every case is stepped on the delayed connection "
                "and on an undelayed twin; non-trivial = at least one input spike; distinct = distinct (pair, dt, weights, delays, spike trains)")
     ex.samples = [{k: v for k, v in cases[ncorpus].items() if k != "steps"}, {k: v for k, v in cases[-1].items() if k != "steps"}]
     ex.extra["streams"] = {"corpus": ncorpus, "generated": len(cases) - ncorpus, "driver_lines": len(lines)}
